@@ -1740,3 +1740,146 @@ func callersVerified(p *Program, fn *ssa.Function, verified map[string]bool, dep
 	}
 	return any
 }
+
+func init() {
+	analyses["param-flow"] = analyseParamFlow
+}
+
+// analyseParamFlow: in each listed function the parameter args["param"] is only handed on to the callees
+// listed in args["callees"] (suffix match on the callee key) and only has the methods listed in
+// args["methods"] invoked on it; it is not type-asserted, stored, captured or passed anywhere else. This
+// pins who can touch an object a caller lends to the function (e.g. the FContext of a call).
+func analyseParamFlow(as AnalysisSpec, progs []*Program, cs *Contracts, funcs []*FuncResult, work string, timeout time.Duration) *AnalysisResult {
+	ar := &AnalysisResult{Name: as.Name}
+	split := func(s string) []string {
+		var out []string
+		for _, x := range strings.Split(s, ",") {
+			if x = strings.TrimSpace(x); x != "" {
+				out = append(out, x)
+			}
+		}
+		return out
+	}
+	callees, methods := split(as.Args["callees"]), split(as.Args["methods"])
+	okCallee := func(k string) bool {
+		for _, c := range callees {
+			if k == c || strings.HasSuffix(k, "."+c) || strings.HasSuffix(k, c) {
+				return true
+			}
+		}
+		return false
+	}
+	okMethod := func(m string) bool {
+		for _, x := range methods {
+			if x == m {
+				return true
+			}
+		}
+		return false
+	}
+	for _, key := range as.Functions {
+		o := &OblResult{Name: key + "/param-flow:" + as.Args["param"], Kind: "param-flow", Func: key, Backend: "ssa-walker", Result: "discharged", Desc: "parameter " + as.Args["param"] + " is handed only to {" + as.Args["callees"] + "} and only has {" + as.Args["methods"] + "} invoked on it"}
+		ar.Obls = append(ar.Obls, o)
+		var fn *ssa.Function
+		var p *Program
+		for _, pp := range progs {
+			if f := pp.Funcs[key]; f != nil {
+				fn, p = f, pp
+			}
+		}
+		if fn == nil {
+			o.Result, o.Why = "failed", "function not found"
+			continue
+		}
+		pname := as.Args["param"]
+		if ct := cs.Funcs[key]; ct != nil {
+			// positional name
+			for i, n := range ct.ParamNames {
+				if n == pname && i < len(fn.Params) {
+					pname = fn.Params[i].Name()
+				}
+			}
+		}
+		var param *ssa.Parameter
+		for _, q := range fn.Params {
+			if q.Name() == pname {
+				param = q
+			}
+		}
+		if param == nil {
+			o.Result, o.Why = "failed", "parameter not found"
+			continue
+		}
+		fail := func(why string, pos token.Pos) {
+			if o.Result == "discharged" {
+				o.Result, o.Why = "failed", why+" at "+p.Pos(pos)
+			}
+		}
+		seen := map[ssa.Value]bool{}
+		var follow func(v ssa.Value)
+		follow = func(v ssa.Value) {
+			if seen[v] || v.Referrers() == nil {
+				return
+			}
+			seen[v] = true
+			for _, r := range *v.Referrers() {
+				switch x := r.(type) {
+				case *ssa.DebugRef:
+				case *ssa.Store:
+					// the parameter's own spill cell (NaiveForm): follow loads of that cell
+					if al, ok := x.Addr.(*ssa.Alloc); ok && x.Val == v && !addrEscapes(al, al.Referrers(), 0) {
+						for _, rr := range *al.Referrers() {
+							if u, ok := rr.(*ssa.UnOp); ok && u.Op == token.MUL {
+								follow(u)
+							}
+						}
+						continue
+					}
+					fail("the parameter is stored", x.Pos())
+				case *ssa.MakeInterface:
+					follow(x)
+				case *ssa.ChangeInterface:
+					follow(x)
+				case *ssa.ChangeType:
+					follow(x)
+				case *ssa.BinOp:
+					// comparison with nil etc.
+				case *ssa.TypeAssert:
+					fail("the parameter is type-asserted (its concrete state becomes reachable)", x.Pos())
+				case ssa.CallInstruction:
+					c := x.Common()
+					if _, isGo := r.(*ssa.Go); isGo {
+						fail("the parameter is handed to a goroutine", r.Pos())
+						continue
+					}
+					if c.IsInvoke() && c.Value == v {
+						if !okMethod(c.Method.Name()) {
+							fail("method "+c.Method.Name()+" is invoked on the parameter", r.Pos())
+						}
+						continue
+					}
+					k := ""
+					if c.IsInvoke() {
+						k = ifaceMethodKey(c)
+					} else if sc := c.StaticCallee(); sc != nil {
+						if sc.Pkg != nil && strings.HasPrefix(sc.Pkg.Pkg.Path(), p.ModPrefix) {
+							k = p.FuncKey(sc)
+						} else {
+							k = calleeKeyExternal(sc)
+						}
+					}
+					if k == "" || !okCallee(k) {
+						fail("the parameter is passed to "+k, r.Pos())
+					}
+				case *ssa.MakeClosure:
+					fail("the parameter is captured by a closure", x.Pos())
+				default:
+					fail(fmt.Sprintf("the parameter is used by %T", r), r.Pos())
+				}
+			}
+		}
+		follow(param)
+	}
+	ar.Summary = fmt.Sprintf("%d functions checked for the flow of parameter %s", len(as.Functions), as.Args["param"])
+	return ar
+}
